@@ -266,7 +266,7 @@ def loop_config(m, which, callback):
         ex.prove(st, 'mustfail:c is unchanged by propagation',
                  SBool(z3.Implies(ex.nops.e > 0, st.heap[('c', 0)] == ex.st0.heap[('c', 0)])), ex.fn, expect='refuted')
 
-    contract = {'post': post, 'print_unreachable': True,
+    contract = {'post': post, 'print_unreachable': True, 'iteration_local': ['cb_calls'],       # ghost call counter: reset by assume_def at the start of every iteration
                 'loops': {loop_ordinal: {'inv': inv, 'assume': assume_def, 'kinds': {}}}}
     cfg = Config(f'm={m}/{"callback" if callback else "plain"}', contract, setup, None)
     cfg.parts = dict(setup=setup, assume_def=assume_def, spec_value=spec_value, nplanes=nplanes, loop_ordinal=loop_ordinal, scratch=scratch)
